@@ -422,6 +422,18 @@ fn probe_grid(ctx: &mut Ctx) {
     }
 }
 
+/// the directed register-level cases of both layouts (queue_set with addresses in different 4 GiB windows, queue_unset,
+/// queue_used, ...): also run under C04 (the device is given the addresses DMA allocation returned) and C09 (queue_unset
+/// really disables the queue before its memory is released)
+pub fn run_directed(ctx: &mut Ctx) {
+    for (version, vn) in [(1u32, "legacy"), (2u32, "modern")] {
+        for wrapped in [false, true] {
+            ctx.tr.scenario(&format!("c10-directed-{}{}", vn, if wrapped { "-some" } else { "" }));
+            directed(ctx, version, wrapped);
+        }
+    }
+}
+
 pub fn run(ctx: &mut Ctx) {
     ctx.tr.scenario("c10-probe");
     probe_grid(ctx);
